@@ -394,8 +394,10 @@ def check_unit(unit, tpl_path, build_dir, repo=REPO, rlimit=20, extra=(), drop_l
         if not o['success'] and o['name'].split('::')[-1] in weak:
             o['inconclusive'] = True
             inconclusive.append(o['name'])
+    inconclusive_only = False
     if status == 'failed' and inconclusive and all(o['success'] or o.get('inconclusive') for o in obs):
         status = 'undecided'
+        inconclusive_only = True          # every other function of the unit was verified: only the properties that use the inconclusive ones are undecided
         err = ('inconclusive: %s fail(s) but contain(s) a closure that carries no contract (an unannotated closure has no postcondition, so the '
                'failure does not show a violation)\n' % ', '.join(inconclusive)) + (err or '')
     smt_ms = 0
@@ -403,7 +405,7 @@ def check_unit(unit, tpl_path, build_dir, repo=REPO, rlimit=20, extra=(), drop_l
         smt_ms = run['json']['times-ms']['smt']['smt-run']
     except Exception:
         pass
-    return dict(unit=unit, engine='verus', backend='z3 (via Verus 0.2026.09.13)', status=status, obligations=obs,
+    return dict(unit=unit, engine='verus', backend='z3 (via Verus 0.2026.09.13)', status=status, obligations=obs, inconclusive_only=inconclusive_only,
                 errors=err, error_blocks=failed_details(run['stderr']) if status == 'failed' else [],
                 functions=fns, items=items, trusted=scan_trusted(text), cmd=run['cmd'], wall_s=run['wall'],
                 solver_time_s=smt_ms / 1000.0, file=rs)
